@@ -184,11 +184,39 @@ Proof.
     apply filter_map_enc. exact Hwf.
 Qed.
 
+(* the serialisation never starts with a raw '?', so it reads back the same with or without the constructor's trimming *)
+Lemma join_trim l : wf_pairs l -> trim_q (join_amp (map enc_pair l)) = join_amp (map enc_pair l).
+Proof.
+  intro Hwf. destruct l as [|p l]; [reflexivity|].
+  destruct (join_amp (map enc_pair (p :: l))) as [|c t] eqn:E; [reflexivity|].
+  cbn [map] in E. inversion Hwf as [|? ? [H1 H2] _]; subst.
+  pose proof (escape_no_sep (fst p) H1) as Hn.
+  unfold enc_pair in E at 1. destruct (esc (fst p)) as [|c' x'] eqn:Ex.
+  - assert (c = 61) by (destruct (map enc_pair l); simpl in E; inversion E; reflexivity). subst c. reflexivity.
+  - assert (c = c') by (destruct (map enc_pair l); simpl in E; inversion E; reflexivity). subst c'.
+    inversion Hn as [|? ? (_ & _ & N63) _]; subst. unfold trim_q.
+    destruct c as [|pc|pc]; try reflexivity. repeat (destruct pc as [pc|pc|]; try reflexivity). contradiction.
+Qed.
+
 End RoundTrip.
 
 Theorem serialize_parse_roundtrip l : wf_pairs l -> parse_query (serialize l) = l.
 Proof.
   intro H. exact (roundtrip tbl_query_param table_param_ok l H).
+Qed.
+
+Lemma parse_query_raw q : parse_query q = parse_raw (trim_q q).
+Proof.
+  unfold parse_query, parse_raw. destruct q as [|c t]; [reflexivity|].
+  destruct (trim_q (c :: t)) eqn:E; [|reflexivity]. reflexivity.
+Qed.
+
+Lemma serialize_first_not_q l : wf_pairs l -> trim_q (serialize l) = serialize l.
+Proof. intro H. exact (join_trim tbl_query_param table_param_ok l H). Qed.
+
+Theorem serialize_parse_raw_roundtrip l : wf_pairs l -> parse_raw (serialize l) = l.
+Proof.
+  intro H. rewrite <- (serialize_first_not_q l H), <- parse_query_raw. apply serialize_parse_roundtrip. exact H.
 Qed.
 
 (* parsing accepts any string and follows the WHATWG urlencoded parser piece by piece *)
